@@ -1,6 +1,7 @@
 package main
 
 import (
+	"reflect"
 	"encoding/hex"
 	"fmt"
 	"math"
@@ -355,9 +356,48 @@ func reinitLine(t []string) string {
 	return a + " || " + b
 }
 
+// reinitc <cfg1> <cfg2> <seed1> <seed2> <hexp> <hexq> : a context that evaluated p under cfg1, then is given cfg2 and re-seeded,
+// must evaluate q exactly like a fresh context under cfg2 with the same seed (p and q leave no variables behind)
+func reinitcLine(t []string) string {
+	if len(t) != 7 {
+		return "bad-op"
+	}
+	cfg1, ok := parseCfg(t[1])
+	cfg2, ok1 := parseCfg(t[2])
+	p, ok2 := unhx(t[5])
+	q, ok3 := unhx(t[6])
+	if !ok || !ok1 || !ok2 || !ok3 {
+		return "bad-op"
+	}
+	vm1, ok := newVM(cfg1, t[3])
+	if !ok {
+		return "bad-op"
+	}
+	_ = runOne(vm1, p)
+	b2, err := hex.DecodeString(t[4])
+	if err != nil || len(b2) != 16 {
+		return "bad-op"
+	}
+	// the host edits the configuration it holds field by field (whatever the library keeps privately inside it stays)
+	dst := reflect.ValueOf(&vm1.Config).Elem()
+	src := reflect.ValueOf(cfg2)
+	for i := 0; i < src.NumField(); i++ {
+		if src.Type().Field(i).IsExported() && dst.Field(i).CanSet() {
+			dst.Field(i).Set(src.Field(i))
+		}
+	}
+	vm1.Seed = b2
+	vm1.Init()
+	a := runOne(vm1, q)
+	vm2, _ := newVM(cfg2, t[4])
+	b := runOne(vm2, q)
+	return a + " || " + b
+}
+
 func init() {
 	handlers["resume"] = resumeLine
 	handlers["reinit"] = reinitLine
+	handlers["reinitc"] = reinitcLine
 }
 
 // apiseq <cfg> <seed|-> <hexsrc>... : the whole public API sequence on one VM, every call under recover:
